@@ -40,6 +40,7 @@ fn main() {
         Some("replay") if args.len() >= 3 => coord::replay_main(&args[2]),
         Some("scan") if args.len() >= 4 => scan(&args),
         Some("threads") => threads::threads_main(&args[2..]),
+        Some("selftest-determinism") => coord::selftest_determinism(&args[2..]),
         _ => usage(),
     };
     std::process::exit(code);
